@@ -231,6 +231,69 @@ def check_fill(ctx, sc, case, inject=None):
         return labels
 
 
+def check_injection(ctx, sc, draw, case, forced=None):
+    """edit the written solution so that one length-limited box gets a value one
+    character too long (or a choice box a value outside its list): the fill must
+    stop with the documented error and never reach `cat`"""
+    import habutax.fields as hf
+    year, forms = sc['year'], sc['forms']
+    with cli.scratch() as d:
+        text = solve.config_to_text(solve.config_from_dict(sc['inputs']))
+        o = cli.solve(d, year, forms, input_text=text, solution=True)
+        if o.exc is not None or 'Successfully solved!' not in o.stdout:
+            return
+        sol = solve.solution_from_text(o.solution_text)
+        want = expected_forms(sol)
+        classes = {c.form_name: c for c in hforms.available_forms[year]}
+        cands = []
+        for _, _, full in want:
+            base, inst = hform.name_and_instance(full)
+            f = classes[base](instance=inst)
+            lines = {l.name(): l for l in f.fields()}
+            tf = pdf.template_fields(f.pdf_file())
+            for m in f.pdf_fields():
+                name = m.field_name if '.' in m.field_name else f'{full}.{m.field_name}'
+                line = lines.get(name)
+                if line is None or not isinstance(line, hf.StringField) or m._value_fn is not None:
+                    continue
+                sec, key = name.split('.', 1)
+                if not sol.has_option(sec, key):
+                    continue
+                if isinstance(m, hpfields.TextPDFField):
+                    limit = tf.get(m.pdf_field_name, {}).get('maxlen') or m.max_length
+                    if limit:
+                        cands.append((name, 'X' * (limit + 1), hpfields.PDFValueTooLong, m.pdf_field_name))
+                elif isinstance(m, hpfields.ChoicePDFField):
+                    cands.append((name, 'ZZ', hpfields.PDFInvalidChoiceValue, m.pdf_field_name))
+        if not cands:
+            ctx.count('injection:no_limited_text_box')
+            return
+        if forced is not None:
+            pick = [c for c in cands if c[0] == forced]
+            if not pick:
+                return
+            name, value, exc_type, target = pick[0]
+        else:
+            name, value, exc_type, target = draw(st.sampled_from(cands))
+        sec, key = name.split('.', 1)
+        sol.set(sec, key, value)
+        path = os.path.join(d, 'solution_injected.ini')
+        with open(path, 'w') as f:
+            sol.write(f)
+        o2 = cli.fill_pdfs(d, path)
+        calls = read_calls(o2.capture_dir)
+    ctx.case()
+    ctx.count('injection:' + exc_type.__name__)
+    ctx.note('limited_boxes_injected', f'{year}:{target}')
+    case = dict(case, injected={'line': name, 'value': value})
+    if not isinstance(o2.exc, exc_type):
+        ctx.violation(f'limit:injected-not-raised:{exc_type.__name__}', f'{year}: {name} set to {value[:12]!r}... (limit of {target} exceeded) but fill ended with {o2.exc!r}', case)
+    elif any('cat' in c['argv'] for c in calls):
+        ctx.violation('limit:cat-after-error', f'{year}: fill raised {exc_type.__name__} for {target} but still produced the combined output', case)
+    else:
+        ctx.nt(f'inj|{year}|{target}')
+
+
 def shard(ctx, k, payload):
     n, seed = payload
 
@@ -257,6 +320,8 @@ def shard(ctx, k, payload):
         sc2 = {'year': sc['year'], 'forms': sc['forms'], 'inputs': inputs}
         ctx.case()
         labels = check_fill(ctx, sc2, {'scenario': sc2})
+        if data.draw(st.integers(0, 3)) == 0:
+            check_injection(ctx, {'year': sc['year'], 'forms': sc['forms'], 'inputs': sc['inputs']}, data.draw, {'scenario': scenario.slim(sc)})
         if labels is None:
             return
         ctx.count('mode:' + mode)
@@ -278,4 +343,8 @@ def run(ctx):
 
 
 def replay(ctx, case):
+    if 'injected' in case:
+        base = {k_: v_ for k_, v_ in case.items() if k_ != 'injected'}
+        check_injection(ctx, case['scenario'], None, base, forced=case['injected']['line'])
+        return
     check_fill(ctx, case['scenario'], case)
